@@ -76,8 +76,8 @@ namespace
   // multipliers applied to the previously *fed* defect; 100/101 = NaN / Inf
   const double MULT[] = {0.0, 1e-9, 0.5, 0.95, 0.96, 1.0, 2.0, 1e20};
   const int NMULT = 8, SYM_NAN = 8, SYM_INF = 9, NSYM = 10;
-  const double INIT[] = {0.0, 1e-40, 1e-4, 1.0};
-  const int NINIT = 4;
+  const double INIT[] = {0.0, 1e-40, 1e-20, 1e-4, 1e-3, 1.0};
+  const int NINIT = 6;
 
   inline double next_fed(double prev, int sym)
   {
@@ -193,8 +193,8 @@ int main(int argc, char** argv)
     "replayed on a fresh scripted IterativeSolver, deduplicated by (status,num_iter,num_stag_iter,def_init,def_cur,def_prev,last fed defect). "
     "Every case is non-trivial (hash = configuration); a state is terminal (only 'new solve' follows) when status != progress";
   spec.bounds_quick = "min_iter 0..2, max_iter 0..3, min_stag_iter 0..2, tol_rel {1e-8,0.5}, tol_abs {default,0.1}, tol_abs_low {0,1e-3}, div_rel {default,10}, "
-    "div_abs {default,100}, defmode {skip allowed, no skip, skip+plot interval 2}, d0 {0,1e-40,1e-4,1}; steps x{0,1e-9,.5,.95,.96,1,2,1e20},NaN,Inf; depth 4";
-  spec.bounds_thorough = "same alphabets; depth 6";
+    "div_abs {default,100}, defmode {skip allowed, no skip, skip+plot interval 2}, d0 {0,1e-40,1e-20 (between eps^2 and eps),1e-4,1e-3 (= tol_abs_low),1}; steps x{0,1e-9,.5,.95,.96,1,2,1e20},NaN,Inf; depth 6 (every case reaches its fixpoint: the whole reachable state space is explored)";
+  spec.bounds_thorough = "additionally max_iter 5 and min_stag_iter 3; depth 8 (every case reaches its fixpoint)";
   spec.assumptions = {
     "reference automaton R1 transcribed by hand from the documentation/comments of kernel/solver/iterative.hpp (criterion formula at _tol_rel, "
     "priority order aborted > diverged > min_iter > converged > max_iter > stagnation as documented step by step in _analyse_defect)",
